@@ -156,6 +156,15 @@ def check_tissue(res, spec, exprs, label, rng, equilibrium):
             bad.append(f"reported pressures differ from the zero-sum least-squares solution by {np.max(np.abs(got - ref)):.3g}")
         if abs(float(np.sum(P1))) > 1e-7 * scale * len(P1):
             bad.append(f"pressures sum to {np.sum(P1)}")
+        # the premises of theorem C04_connected_pressures_are_the_zero_sum_least_squares on the implementation's own output:
+        # stationarity A^T (A p - r) = -mu 1 (a constant vector), zero sum, +-1 difference rows, connectedness (established above)
+        g = A.T @ (A @ got - r)
+        gscale = 1.0 + float(np.max(np.abs(A.T @ A))) * float(np.max(np.abs(got))) + float(np.max(np.abs(A.T @ r)))
+        rows_ok = all(sorted(row[np.nonzero(row)[0]].tolist()) == [-1.0, 1.0] for row in A)
+        if float(np.max(g) - np.min(g)) > 1e-7 * gscale:
+            bad.append(f"reported pressures are not a stationary point of the bordered normal equations: A^T(Ap - r) spreads by {float(np.max(g) - np.min(g)):.3g}")
+        elif rows_ok:
+            res.count("premises of the zero-sum least-squares theorem hold on the reported pressures")
         # linearity in the tensions
         _, P2 = solve_with(T2)
         _, P3 = solve_with(al * T1 + be_ * T2)
